@@ -83,6 +83,27 @@ func (s *gscope) visible(typ string) []string {
 	return out
 }
 
+// settable: the visible variables of a type that a set may target. A name that is reserved
+// (let name not bound yet) in an enclosing scope is left out: should the outer binding be
+// missing at run time (its definition was cut short by an injected failure), set would bind the
+// name in the let scope at another type than the let gives it, and zygo's same-scope re-def
+// type rule - which no property statement fixes - would decide the outcome.
+func (g *gen) settable(typ string) []string {
+	var out []string
+	for _, n := range g.scope.visible(typ) {
+		reserved := false
+		for c := g.scope; c != nil; c = c.parent {
+			if v, ok := c.vars[n]; ok && v.hidden {
+				reserved = true
+			}
+		}
+		if !reserved {
+			out = append(out, n)
+		}
+	}
+	return out
+}
+
 func scalarType(t string) bool {
 	// function values have no dynamic type in zygo, so re-binding them is never refused
 	return t == "int" || t == "bool" || t == "str" || t == "float" || t == "fn0" || t == "fn1" || t == "fn2" || t == "ffn0"
@@ -823,7 +844,7 @@ func (g *gen) stmt(d int) *Node {
 		if g.cfg.ScopeOnly {
 			typ = "int"
 		}
-		if vs := g.scope.visible(typ); len(vs) > 0 {
+		if vs := g.settable(typ); len(vs) > 0 {
 			g.feat("set")
 			return NSet(rapid.SampledFrom(vs).Draw(g.t, "sv"), g.expr(typ, d))
 		}
